@@ -49,17 +49,12 @@ def check(ctx):
         r1.check(a in valid, 'documented identifier annotation (%s) accepted' % a, ap.rel, 1, '(%s) is documented for identifiers but not in GtkDocCommentBlock.valid_annotations' % a)
     ann_consts = dict((k, py.fold_name(ap, k)) for k in ap.assigns if k.startswith('ANN_') and k not in ('ANN_LPAR', 'ANN_RPAR'))
     by_value = dict((v, k) for k, v in ann_consts.items())
-    # consumption sites: method -> list of (ANN const, node)
+    # consumption sites: methods of MainTransformer that mention the annotation constant at all (directly, as an argument of a helper, in a table)
     uses = {}
     for mname, f in methods.items():
         for n in P.walk_no_nested(f):
-            nm = None
-            if isinstance(n, ast.Compare) and len(n.ops) == 1 and isinstance(n.ops[0], (ast.In, ast.NotIn)) and isinstance(n.left, ast.Name):
-                nm = n.left.id
-            elif isinstance(n, ast.Call) and isinstance(n.func, ast.Attribute) and n.func.attr == 'get' and n.args and isinstance(n.args[0], ast.Name):
-                nm = n.args[0].id
-            if nm in ann_consts:
-                uses.setdefault(nm, []).append((mname, n))
+            if isinstance(n, ast.Name) and n.id in ann_consts and isinstance(n.ctx, ast.Load):
+                uses.setdefault(n.id, []).append((mname, n))
     for a in valid:
         c = by_value[a]
         r1.check(c in uses, 'identifier annotation (%s) consumed' % a, rel, 1, '(%s) is accepted on identifiers but MainTransformer never looks at it' % a,
@@ -79,23 +74,15 @@ def check(ctx):
     for c, (attr, key) in sorted(CHAIN.items()):
         ok = False
         where = None
-        for mname, n in uses.get(c, []):
-            f = methods[mname]
-            # variables holding the annotation value
-            vars_ = set()
-            for t, v, st in P.stores_in(f):
-                if isinstance(t, ast.Name) and any(x is n for x in ast.walk(v)):
-                    vars_.add(t.id)
-            for _ in range(3):        # values derived from the annotation value (transfer = transfer_annotation[0])
-                for t, v, st in P.stores_in(f):
-                    if isinstance(t, ast.Name) and any(isinstance(x, ast.Name) and x.id in vars_ for x in ast.walk(v)):
-                        vars_.add(t.id)
-            for t, v, st in P.stores_in(f):
-                if isinstance(t, ast.Attribute) and t.attr == attr:
-                    if any(isinstance(x, ast.Name) and x.id in vars_ for x in ast.walk(v)) or any(x is n for x in ast.walk(v)) or \
-                            any(any(y is n or (isinstance(y, ast.Name) and y.id in vars_) for y in ast.walk(g.test)) for g in P.guards(st) if g.test is not None):
-                        ok = True
-                        where = st.lineno
+        crx = re.compile(r'\b%s\b' % c)
+        for mname in sorted(set(m_ for m_, n in uses.get(c, []))):
+            # gated summary of the consuming method (private helpers inlined, literal tables unrolled, setattr as a store): a store into
+            # `.attr` whose value or condition depends on the annotation
+            CS = gsa.summarise(ctx, MT, 'MainTransformer.' + mname)
+            for e in gsa.find(CS, 'store', r'\.%s$' % attr):
+                if crx.search(e.value) or any(crx.search(a_) for a_ in gsa.atoms(e.cond)):
+                    ok = True
+                    where = e.line
         r1.check(ok, '(%s) -> .%s' % (ann_consts[c], attr), rel, where or 1,
                  'no function stores `.%s` from the (%s) annotation: the annotation never reaches the model' % (attr, ann_consts[c]))
         r1.check(key in keys_by_attr.get(attr, ()), '.%s -> @%s' % (attr, key), w.mod.rel, 1,
